@@ -388,7 +388,7 @@ impl Property for C20 {
     fn rule(&self, tier: Tier) -> String {
         format!(
             "generated simulations: queue policy {{Drop, Queue(None), Queue(200 B)}} x tasks (timer-blocked, far-future, receive loop holding messages) on/off x shut-down-and-restarted transit module on/off x panicking receiver on/off x burst {:?} x processing elements on/off x messages emitted from at_sim_end on/off, \
-             on a fixed topology with a parent/child pair and a ring of three busy channels through a transit gate; stopping points: builder dropped, built not started, started and stepped k events for k in 0..={}, max_itr(k) for every k up to the total + 1 in both drop orders (app first / profiler with remaining events first), max_time in {{0, 0.5, .., 4, 10, 60}} s; \
+             on a fixed topology with a parent/child pair and a ring of three busy channels through a transit gate; stopping points: builder dropped, built not started, started and stepped k events for k in 0..={}, max_itr(k) for every k up to the total + 1 in both drop orders (app first / profiler with remaining events first), max_time in {{0, 0.5, .., 4, 10, 60}} s (thorough: every 0.1 s up to 6 s); \
              oracle: per-kind live-object counters all zero and no double drop after the last handle is gone; then a reference simulation must reproduce the trace it gave before anything else ran in the process (and the same in every worker process); \
              non-trivial = stopping point that leaves events, queued messages or blocked tasks behind",
             tier.pick(vec![3u32, 5], vec![1u32, 3, 5, 8]),
@@ -429,7 +429,12 @@ impl Property for C20 {
                                     stops.push(Stop::MaxItr(k, false));
                                     stops.push(Stop::MaxItr(k, true));
                                 }
-                                stops.extend([0u64, 5, 10, 15, 20, 25, 30, 35, 40, 100, 600].map(Stop::MaxTime));
+                                if ctx.tier == Tier::Thorough {
+                                    stops.extend((0u64..=60).map(Stop::MaxTime));
+                                    stops.extend([100u64, 600].map(Stop::MaxTime));
+                                } else {
+                                    stops.extend([0u64, 5, 10, 15, 20, 25, 30, 35, 40, 100, 600].map(Stop::MaxTime));
+                                }
                                 for stop in stops {
                                     ctx.begin(|| case_json(&c, stop));
                                     ctx.out.evaluations += 1;
